@@ -149,7 +149,7 @@ Section SerLex.
 
   Lemma cfg_parts :
     head_ok C ib = true /\ tail_ok C ib = true /\ leaf_ok C ib = true
-    /\ child_indent_ok C = true /\ root_indent_ok C = true.
+    /\ child_indent_ok C = true /\ root_indent_ok C = true /\ root_test_ok C = true.
   Proof.
     unfold cfg_ok in HC. repeat (apply andb_true_iff in HC as [HC ?]).
     destruct ib; repeat split; assumption.
@@ -172,14 +172,21 @@ Section SerLex.
     destruct p as [s|[]|f|f|]; try discriminate; cbn [render_piece var_val mkenv v_cur v_indent]; auto using Hind.
   Qed.
 
+  (** With the root test [is None] no named block is written as if it were the root. *)
+  Lemma root_like_never n : root_like (t_root_test C) n = false.
+  Proof.
+    destruct cfg_parts as (_ & _ & _ & _ & _ & Hrt). unfold root_test_ok in Hrt.
+    destruct (t_root_test C); try discriminate. reflexivity.
+  Qed.
+
   Lemma ser_node_lexes : forall k cur l, ws_only cur = true ->
     exists l', lexes E l (ser_node C E o cur k) (toks k) l'.
   Proof.
-    destruct cfg_parts as (Hh & Ht & Hl & Hci & _).
+    destruct cfg_parts as (Hh & Ht & Hl & Hci & _ & _).
     induction k as [n v | n cs IH] using kv_ind'; intros cur l Hc.
     - cbn [ser_node toks].
       exact (lexes_to_sound E HE n v _ _ _ l Hl (tpl_conc n v cur (t_leaf C) Hc)).
-    - cbn [ser_node toks].
+    - cbn [ser_node toks]. rewrite root_like_never.
       destruct (lexes_to_sound E HE n [] _ _ _ l Hh (tpl_conc n [] cur (t_head C) Hc)) as [l1 H1].
       set (ci := render E (mkenv C E o cur) n [] (t_child_indent C)).
       assert (Hci' : ws_only ci = true) by (apply ws_tpl_render; assumption).
@@ -196,7 +203,7 @@ Section SerLex.
 
   Lemma serialise_doc_lexes d l : exists l', lexes E l (serialise_doc C E o d) (toks_doc d) l'.
   Proof.
-    destruct cfg_parts as (_ & _ & _ & _ & Hri).
+    destruct cfg_parts as (_ & _ & _ & _ & Hri & _).
     unfold serialise_doc, toks_doc.
     set (ri := render E (mkenv C E o (o_start o)) [] [] (t_root_indent C)).
     assert (Hri' : ws_only ri = true) by (apply ws_tpl_render; [assumption | apply Hstart]).
